@@ -88,6 +88,7 @@ def run(chk, repo, tier):
     from rules import C02b
     C02b.run(chk, repo)
     C02b.run_b8(chk, repo)
+    C02b.run_b10(chk, repo)
 
     um = repo.module(f'{NM}.update')
     am = repo.module(f'{NM}.advan')
